@@ -567,6 +567,10 @@ TRANSPARENT_CALLS = {
     '<usize as std::clone::Clone>::clone',
     '<std::boxed::Box as std::ops::Deref>::deref',
     '<std::boxed::Box as std::ops::DerefMut>::deref_mut',
+    # value-preserving for the purposes of refinement / provenance
+    '<std::option::Option as std::clone::Clone>::clone',
+    'std::option::Option::as_ref',
+    'std::option::Option::as_mut',
 }
 
 
@@ -1124,11 +1128,11 @@ def scan(fn, init, on_stmt=None, on_term=None, on_edge=None, cap=64, track_ret=T
 def _ret_class_rv(rv, fn):
     if rv[0] == 'aggr' and rv[1] == 'adt':
         v = rv[2].split('::')[-1]
-        if v in ('Err', 'Ready', 'Some') and rv[3]:
+        if v in ('Err', 'Ready', 'Some', 'Ok') and rv[3]:
             l = op_local(rv[3][0])
             if l is not None:
                 e = fn.expr_of_local(l)
-                if e[0] == 'call':
+                if e[0] == 'call' and v != 'Ok':
                     return '%s:%s' % (v, e[1].split('::')[-1])
                 if e[0] == 'aggr' and e[1] == 'adt':
                     return '%s:%s' % (v, e[2].split('::')[-1])
@@ -1235,3 +1239,22 @@ def sequences(fn, match, cap=48, maxlen=40):
         return us + (ev,)
     exits, ins, parent = scan(fn, (), None, on_term, cap=cap)
     return set(us for (bi, us, rc, st) in exits)
+
+
+def guard_edges(facts, fn, callees, accept):
+    """CFG edges out of switches whose subject derives from a call to one of `callees`
+    and whose label satisfies accept(label) (label: True/False or frozenset of variants)"""
+    callees = set(callees)
+
+    def subj(sw):
+        e = sw.subject
+        return any(x[0] == 'call' and x[1] in callees for x in walk(e))
+    return edges_where(facts, fn, subj, accept)
+
+
+def all_switches(facts, fn):
+    out = {}
+    for bi, b in enumerate(fn.blocks):
+        if not b['cu'] and b['t']['k'] == 'sw':
+            out[bi] = resolve_switch(facts, fn, bi)
+    return out
